@@ -159,10 +159,31 @@ def flat_union_cases():
     return out
 
 
+VMAP = "::verif_support::ext::VMap"
+
+
+def map_type_cases():
+    """map-typed members under a consumer-chosen map type (not std's): an optional map member still starts empty in the builder"""
+    out = []
+    sp = {(m["type"], m["state"]): m for m in specs()}
+    for mt in (VMAP, "std::collections::BTreeMap"):
+        for k in (("map", "opt"), ("map", "req"), ("map", "dflt"), ("map", "dflt0"), ("map_keyed", "opt"), ("map_any", "opt")):
+            if k not in sp:
+                continue
+            for extra in ((), (("string", "req"),)):
+                ms = [sp[k]] + [sp[e] for e in extra]
+                c = mk(ms)
+                c["id"] = c["id"].replace("builder[", "builder-maptype[%s|" % mt.split("::")[-1])
+                c["settings"] = {"struct_builder": True, "map_type": mt}
+                out.append(c)
+    return out
+
+
 def cases(tier, seed):
     sp = specs()
     out = [mk([m]) for m in sp]
     out += flat_union_cases()
+    out += map_type_cases()
     out += recursive_cases()
     out += inline_cases()
     if tier == "quick":
